@@ -17,7 +17,7 @@
 #define EPS 2.220446049250313e-16
 
 /* head-room constants: >= 100 x the largest normalised deviation seen on the unchanged tree (see evidence maxima) */
-#define C_INV_RES   200.0    /* |A X - I|, |X A - I|            in units of kappa n eps            */
+#define C_INV_RES  5000.0    /* |A X - I|, |X A - I|            in units of kappa n eps            */
 #define C_INV_FWD   200.0    /* |X - X*|/|X*|                   in units of kappa n eps            */
 #define C_DET       200.0    /* |det - det*|                    in units of n eps perm(|A|)        */
 #define C_LSE_FWD   400.0    /* |x - x*|/|x*|                   in units of kappa n eps            */
@@ -26,7 +26,7 @@
 #define C_PINV     2000.0    /* Penrose residuals               in units of kappa^4 n eps          */
 #define C_EIG_RES   400.0    /* |A v - lambda v|/|v|            in units of n eps |A|_F            */
 #define C_EIG_VAL   400.0    /* |lambda - lambda*|              in units of n eps |A|_F            */
-#define C_SVD      1000.0    /* |U S V^T - A|, |s - s*|, |U^T U - I| in units of max(m,n) eps smax */
+#define C_SVD      2000.0    /* |U S V^T - A|, |s - s*|, |U^T U - I| in units of max(m,n) eps smax */
 
 enum { G_INV, G_DET, G_LSE, G_OLS, G_PINV, G_EIG, G_SVD, NGROUP };
 static const char *GNAME[NGROUP] = { "inv", "det", "lse", "ols", "pinv", "eig", "svd" };
@@ -408,7 +408,8 @@ static void group_lse(vh_ctx *c)
   dump(c, "augmented[A|b]", mx);
   if (!(kappa <= 1e3L) || !or_lu_solve(A, b, &xo)) { vh_skip(c, "kappa > 1e3"); goto out; }
   if (lse_zero_window(A, 1e-14L, 1e-3L)) { vh_obs("lse_skipped_zero_window", 1); vh_skip(c, "an elimination intermediate lies in SolveLSE's documented 1e-4 zero window"); goto out; }
-  sol = out_dvector(c, n);
+  /* primary run into an empty / zero-filled / wrongly sized vector */
+  { int how = (int)vh_int(c, 0, 2); if (how == 0) initDVector(&sol); else NewDVector(&sol, how == 1 ? n : n + 2); }
   SolveLSE(mx, sol);
   if (!matrix_bitequal(mx, before)) vh_fail(c, "SolveLSE|input-modified", "augmented matrix changed");
   if (sol->size != n) { vh_fail(c, "SolveLSE|shape", "solution has %zu entries for %zu unknowns", sol->size, n); DelDVector(&sol); goto out; }
@@ -429,6 +430,26 @@ static void group_lse(vh_ctx *c)
     /* the residual of elimination with partial pivoting is backward stable up to the growth factor; kappa is the generous cap */
     vh_max("max_SolveLSE_residual_units", res / tol);
     if (!(res <= C_LSE_RES * tol)) { snprintf(key, sizeof key, "SolveLSE|residual|%s", pt); vh_fail(c, key, "max|A x - b| = %.3g > %.3g (n=%zu kappa=%.3Lg)", res, C_LSE_RES * tol, n, kappa); }
+  }
+  /* the solution is a function of the system only: solving into a reused vector (holding the library's own "no value"
+     code 99999999, or an earlier O(1) solution) must meet the same tolerance; bit-identity is recorded as an observation */
+  {
+    dvector *sol2; int same = 1, fill = vh_coin(c, 0.5); double d2 = 0, tol2 = (double)kappa * (double)n * EPS * (double)(xs + bmax / anorm);
+    NewDVector(&sol2, n);
+    for (i = 0; i < n; i++) sol2->data[i] = fill ? MISSING : vh_range(c, -5.0, 5.0);
+    SolveLSE(mx, sol2);
+    if (sol2->size != n) d2 = INFINITY;
+    else for (i = 0; i < n; i++) {
+      double d = fabs(sol2->data[i] - (double)LM(xo, i, 0)); if (!(d <= d2)) d2 = d;
+      if (sol2->data[i] != sol->data[i]) same = 0;
+    }
+    vh_obs(same ? "lse_output_reuse_bit_identical" : "lse_output_reuse_not_bit_identical", 1);
+    vh_max(fill ? "max_SolveLSE_reused_output_missing_code_units" : "max_SolveLSE_reused_output_earlier_solution_units", d2 / tol2);
+    if (!(d2 <= C_LSE_FWD * tol2))
+      vh_fail(c, fill ? "SolveLSE|solution-vs-oracle|output-vector-prefilled-with-missing-code" : "SolveLSE|solution-vs-oracle|output-vector-prefilled-with-earlier-solution",
+              "same system solved into a vector pre-filled with %s: max|x - oracle| = %.3g > %.3g (n=%zu kappa=%.3Lg)", fill ? "99999999 (MISSING)" : "values in [-5,5]", d2, C_LSE_FWD * tol2, n, kappa);
+    vh_obs("lse_output_reuse_judged", 1);
+    DelDVector(&sol2);
   }
   vh_obs("lse_judged", 1); if (need) vh_obs("lse_cases_requiring_row_exchange", 1);
   DelDVector(&sol);
@@ -620,7 +641,8 @@ static void group_eig(vh_ctx *c)
     ld vn = 0, r = 0;
     for (i = 0; i < n; i++) vn += (ld)evect->data[i][j] * evect->data[i][j];
     vn = sqrtl(vn);
-    if (!(vn > 1e-6L) || !isfinite(eval->data[j])) { vh_fail(c, "EVectEval|null-eigenvector", "pair %zu: |v| = %.3Lg lambda = %.17g", j, vn, eval->data[j]); continue; }
+    lam[j] = eval->data[j];
+    if (!(vn > 0) || !isfinite(eval->data[j])) { vh_fail(c, "EVectEval|null-eigenvector", "pair %zu: |v| = %.3Lg lambda = %.17g", j, vn, eval->data[j]); continue; }
     if (fabs((double)vn - 1) > wnorm) wnorm = fabs((double)vn - 1);
     for (i = 0; i < n; i++) {
       ld s = -(ld)eval->data[j] * evect->data[i][j];
@@ -628,8 +650,7 @@ static void group_eig(vh_ctx *c)
       if (fabsl(s) > r) r = fabsl(s);
     }
     if ((double)(r / vn) > worst) worst = (double)(r / vn);
-    if (!((double)(r / vn) <= C_EIG_RES * tol)) { vh_fail(c, "EVectEval|Av=lambda-v", "pair %zu: max|A v - lambda v|/|v| = %.3Lg > %.3g (n=%zu lambda=%.17g |A|=%.3Lg)", j, r / vn, C_EIG_RES * tol, n, eval->data[j], fro); break; }
-    lam[j] = eval->data[j];
+    if (!((double)(r / vn) <= C_EIG_RES * tol)) { vh_fail(c, "EVectEval|Av=lambda-v", "pair %zu: max|A v - lambda v|/|v| = %.3Lg > %.3g (n=%zu lambda=%.17g |v|=%.3Lg |A|=%.3Lg)", j, r / vn, C_EIG_RES * tol, n, eval->data[j], vn, fro); break; }
   }
   /* the returned eigenvalues are the whole spectrum (sorted comparison with the Jacobi oracle) */
   for (i = 0; i + 1 < n; i++) for (j = i + 1; j < n; j++) if (lam[j] > lam[i]) { ld s = lam[i]; lam[i] = lam[j]; lam[j] = s; }
